@@ -366,6 +366,8 @@ def desugar(text, rules, counts):
             c = text.count("vx_task")  # the hoisting itself is done by hoist_spawn() before the other rules
         elif r == "R-SEGMENT":
             c = 1  # done by segment() before the other rules
+        elif r == "R-SLICE1":
+            text, c = _r_slice1(text)
         else:
             raise SpliceError("unknown desugaring " + r)
         # a listed desugaring without a site is not an error: the list says what MAY be rewritten in this function
@@ -661,6 +663,18 @@ def hoist_spawn(text, cfgs):
             raise SpliceError("R-SPAWN: async block is not the only argument of tokio::spawn")
         po = m.index("(", mt.start())
         sites.append((po, e, bo, bc))
+    # second form: the async block is bound to a variable first (`let f = async move { BODY };`), then spawned or awaited
+    for mt in re.finditer(r"=\s*(async\s+move\s*\{)", m):
+        if any(po < mt.start() < e for (po, e, _, _) in sites):
+            continue
+        bo = mt.end() - 1
+        bc = match_close(m, bo)
+        e = skip_ws(m, bc + 1)
+        if m[e] != ";":
+            raise SpliceError("R-SPAWN: bound async block is not a whole let initialiser")
+        # replace from just after `=` (keeping one space) up to the `;`
+        sites.append((mt.start(), e, bo, bc))
+    sites.sort()
     if len(sites) != len(cfgs):
         raise SpliceError("R-SPAWN: %d spawn sites, %d declared" % (len(sites), len(cfgs)))
     sh = FnShape(text)
@@ -678,7 +692,7 @@ def hoist_spawn(text, cfgs):
         line_off = text.count("\n", 0, bo)
         fn_text = "    async fn %s%s(%s) -> %s %s" % (cfg["name"], gen_text, cfg["params"], cfg["returns"], body)
         hoisted.append((cfg, fn_text, line_off))
-        text = text[:po + 1] + call + "\n" * nl + text[e:]
+        text = text[:po + 1] + (" " if text[po] == "=" else "") + call + "\n" * nl + text[e:]
     hoisted.reverse()
     return text, hoisted
 
@@ -706,3 +720,13 @@ def segment(text, cfg):
     first_line_off = text.count("\n", 0, st[k][0])
     new = head + "(" + cfg["params"] + ")" + text[sh.params_close + 1:sh.body_open + 1] + "\n        " + cfg.get("prologue", "") + text[st[k][0]:]
     return new, first_line_off
+
+
+def _r_slice1(text):
+    """R-SLICE1: a one-element slice pattern as the last component of a tuple pattern, `(.., [x]) => {` becomes
+    `(.., vx_s) if vx_s.len() == 1 => { let x = &vx_s[0];` (Verus has no slice patterns; same matches, same binding mode)."""
+    m = mask(text)
+    sites = list(re.finditer(r",\s*\[\s*(\w+)\s*\]\s*\)\s*=>\s*\{", m))
+    for mt in reversed(sites):
+        text = text[:mt.start()] + ", vx_s) if vx_s.len() == 1 => { let %s = &vx_s[0];" % mt.group(1) + text[mt.end():]
+    return text, len(sites)
